@@ -231,8 +231,17 @@ def identity_case(draw):
             "follow": [first] + draw(follow_ups(alts, alts))}
 
 
+@st.composite
+def ctor_case(draw):
+    """two quantities built from ONE Magnitude object (a documented constructor argument): each has its own number"""
+    return {"kind": "ctor", "x": draw(st.sampled_from([12.0, 2.5, [1.0, 2.0, 4.0]])), "e": draw(st.sampled_from([None, 0.2, 0.01])),
+            "uform": draw(st.sampled_from(["dict", "baseunits", "quantity", "none", "string"])),
+            "uform_b": draw(st.sampled_from(["dict", "baseunits", "quantity", "none", "string"])),
+            "follow": draw(st.sampled_from(["abse", "rele", "to", "ctor_abse", "ctor_rele", "abse_on_first"]))}
+
+
 def strategies(tier):
-    return {"identity": (identity_case(), 600, 12000), "binary": (binary_case(), 2500, 60000), "unary": (unary_case(), 2000, 40000),
+    return {"ctor_shared_magnitude": (ctor_case(), 200, 3000), "identity": (identity_case(), 600, 12000), "binary": (binary_case(), 2500, 60000), "unary": (unary_case(), 2000, 40000),
             "space": (space_case(), 500, 10000)}
 
 
@@ -532,11 +541,49 @@ def check_space(case, v):
     v.label(case["fn"], form, "raised" if raised else "returned")
 
 
+def check_ctor(case, v):
+    from scinumtools.units import Quantity, Magnitude, BaseUnits
+    m = Magnitude(case["x"], case["e"])
+
+    def units(form):
+        return {"dict": lambda: {"m": 1}, "baseunits": lambda: BaseUnits({"m": 1}), "quantity": lambda: Quantity(1, "m"),
+                "none": lambda: None, "string": lambda: "m"}[form]()
+    a = Quantity(m, units(case["uform"]))
+    f = case["follow"]
+    kw = {"ctor_abse": {"abse": 0.5}, "ctor_rele": {"rele": 10}}.get(f, {})
+    if f == "abse_on_first":
+        b = Quantity(m, units(case["uform_b"]))
+        before = snap(b)
+        a.abse(0.5)
+        changed, other, what = diff(before, b), "b", "a.abse(0.5)"
+    else:
+        before = snap(a)
+        b = Quantity(m, units(case["uform_b"]), **kw)
+        what = f"b = Quantity(m, ..., {kw})" if kw else {"abse": "b.abse(0.5)", "rele": "b.rele(10)", "to": "b.to('cm')"}[f]
+        try:
+            if f == "abse":
+                b.abse(0.5)
+            elif f == "rele":
+                b.rele(10)
+            elif f == "to":
+                if case["uform_b"] == "none":
+                    return v.discard("no unit to convert")
+                b.to("cm")
+        except Exception as ex:
+            return v.discard("follow-up not supported: " + type(ex).__name__)
+        changed, other = diff(before, a), "a"
+    if changed:
+        return v.fail("shared-state", f"m = Magnitude({case['x']!r}, {case['e']!r}); a = Quantity(m, <{case['uform']}>); "
+                                      f"b = Quantity(m, <{case['uform_b']}>); {what} changed {other}: {changed}")
+    v.nt(True)
+    v.label("two_quantities_from_one_Magnitude", "ctor_follow_" + f)
+
+
 def check(case):
     v = Verdict()
     try:
         with np.errstate(all="ignore"):
-            {"binary": check_binary, "unary": check_unary, "space": check_space}[case["kind"]](case, v)
+            {"ctor": check_ctor, "binary": check_binary, "unary": check_unary, "space": check_space}[case["kind"]](case, v)
     finally:
         if not R.tables_pristine():
             R.restore_tables()
